@@ -47,6 +47,7 @@ type opsWriter struct {
 	fo   *os.File
 	fi   *os.File
 	n    int
+	lastImpl string
 }
 
 func newOps(t *testing.T, name string) *opsWriter {
@@ -67,6 +68,7 @@ func (w *opsWriter) add(op, impl string) {
 	defer w.mu.Unlock()
 	fmt.Fprintln(w.ops, op)
 	fmt.Fprintln(w.impl, impl)
+	w.lastImpl = impl
 	w.n++
 }
 
